@@ -537,6 +537,13 @@ def oracle_C02(spec, tr, init):
 					bad.append('t=%d node%d: shipped %s > stock held %s' % (t, i, os_, stock))
 			if nd['dmfsCum'] > nd['dcum']:
 				bad.append('t=%d node%d: cumulative demand met from stock %s > cumulative demand %s' % (t, i, nd['dmfsCum'], nd['dcum']))
+			# backorders are served before new demand, customer by customer: what a customer receives beyond its own outstanding backorders
+			# is demand met from stock
+			want_dm = sum((pos_(st['edges'][e]['os'] - prev['edges'][e]['bo']) for e in outE[i]), F(0))
+			if 'dmfs' in nd and nd['dmfs'] != want_dm:
+				bad.append('t=%d node%d: demand met from stock %s != sum over customers of (shipped - own backorders)+ = %s' % (t, i, nd['dmfs'], want_dm))
+			if 'dmfs' in nd and nd['dmfsCum'] != prev['nodes'][i].get('dmfsCum', F(0)) + nd['dmfs']:
+				bad.append('t=%d node%d: cumulative demand met from stock %s != previous %s + this period %s' % (t, i, nd['dmfsCum'], prev['nodes'][i].get('dmfsCum', F(0)), nd['dmfs']))
 			want = (nd['dmfsCum'] / nd['dcum']) if nd['dcum'] > 0 else F(1)
 			if float(nd['fill']) != float(want) and abs(float(nd['fill']) - float(want)) > 1e-15:
 				bad.append('t=%d node%d: fill rate %s != %s' % (t, i, float(nd['fill']), float(want)))
